@@ -37,7 +37,7 @@ var mains = map[string]func(map[string]string){
 	"c04": c04Main,
 	"c05": c05Main,
 	"c07": c07Main,
-	"c10": c10Main, "c08": c08Main, "c09": c09Main, "c15": c15Main, "c11p": c11pMain, "c13p": c13pMain, "c12": c12Main, "c06": c06Main, "c14": c14Main, "idlof": idlofMain,
+	"c10": c10Main, "c08": c08Main, "c09": c09Main, "c15": c15Main, "c11p": c11pMain, "c13p": c13pMain, "c12": c12Main, "c06": c06Main, "c14": c14Main, "c17": c17Main, "idlof": idlofMain,
 	"c11": c11Main,
 	"c13": c13Main,
 	"c19": c19Main,
